@@ -374,9 +374,10 @@ def dump_replay(doc):
 
 def write_replay(seed, m):
     os.makedirs(REPLAYS, exist_ok=True)
-    path = os.path.join(REPLAYS, "C14-%d-%s-%d.json" % (seed, m["stratum"], m["index"]))
+    path = os.path.join(REPLAYS, "C14-%d-%s-%d%s.json" % (seed, m["stratum"], m["index"], "-O" if sys.flags.optimize else ""))
     doc = {
         "property": PROPERTY, "verif_seed": seed, "stratum": m["stratum"], "run_index": m["index"],
+        "python_optimize": int(sys.flags.optimize),
         "engine": ENGINE, "ref": m["schedule"].get("ref", "inproc"), "ids": m["schedule"].get("ids", "real"),
         "source": m["schedule"]["source"], "args": m["schedule"]["args"],
         "steps": m["schedule"]["steps"], "violation": m["violation"], "signature": m["signature"],
@@ -390,6 +391,8 @@ def write_replay(seed, m):
 def confirm_replay(path):
     """Re-execute the replay file in a fresh interpreter; True iff it fails the same way."""
     env = dict(os.environ)
+    env.pop("PYTHONOPTIMIZE", None)  # the replay file says which interpreter mode it needs
+    env.pop("CHMPY_VERIF_OPTIMIZE", None)
     p = subprocess.run([sys.executable, CHECK, "--replay", path], capture_output=True, text=True, env=env, timeout=600)
     return p.returncode == 1 and "REPRODUCED exact" in p.stdout, p.stdout + p.stderr
 
@@ -497,6 +500,73 @@ def fingerprints_main(seed, spec, workers):
         return 2
     print(json.dumps(batch.fps, sort_keys=True))
     return 0
+
+
+def slice_main(seed, spec, workers):
+    """A part of the batch executed by an interpreter of its own (used for the
+    histories that run without assert statements, `python -O`): runs the
+    listed histories, minimises and confirms violations like the main batch
+    and prints a one-line summary for the parent's evidence."""
+    quiet()
+    preimport()
+    take_base_state()
+    batch = Batch()
+    harness = []
+    vlines, klines = [], []
+    t0 = time.time()
+    try:
+        with make_pool(n_workers(workers)) as pool:
+            tasks = interleave([list(chunks(st, seed, idx)) for st, idx in parse_fp_spec(spec)])
+            run_tasks(pool, tasks, batch, max_violating_chunks=4 if os.environ.get("VERIF_STOP_EARLY") == "1" else 20)
+            vlines, klines, harness = handle_violations(seed, batch, pool)
+    except PoolFailure as e:
+        harness.append(str(e))
+    for hitem in batch.harness:
+        harness.append("run %s:%d raised inside the simulator:\n%s" % tuple(hitem))
+    for line in klines:
+        print(line)
+    for path, m in vlines:
+        print("violation: class=%s signature=%s steps=%s" % (
+            m["violation"]["class"], json.dumps(m["signature"], sort_keys=True),
+            [_op_label(s) for s in m["schedule"]["steps"]]))  # fmt: skip
+        print("VIOLATION property=%s replay=%s" % (PROPERTY, path))
+    print("SLICE-SUMMARY " + json.dumps({
+        "python_optimize": int(sys.flags.optimize), "runs": batch.runs, "steps": batch.steps,
+        "checked_query_pairs": batch.stats["checked"], "runs_by_stratum": dict(batch.per_stratum),
+        "histories_judged_after_a_state_change": len(batch.nontrivial), "wall_s": round(time.time() - t0, 1),
+        "violations": len(vlines), "spec": spec,
+    }, sort_keys=True))  # fmt: skip
+    if harness and not vlines:
+        for hmsg in harness:
+            sys.stderr.write("HARNESS-ERROR: %s\n" % hmsg)
+        return 2
+    return 1 if vlines else 0
+
+
+def start_slice(seed, spec, workers=3, optimize=True):
+    env = dict(os.environ)
+    env["VERIF_SEED"] = str(seed)
+    if optimize:
+        env["CHMPY_VERIF_OPTIMIZE"] = "1"
+    return subprocess.Popen(
+        [sys.executable, CHECK, "--slice", spec, "--workers", str(workers), "--no-evidence"],
+        stdout=subprocess.PIPE, stderr=subprocess.PIPE, text=True, env=env,
+    )  # fmt: skip
+
+
+def collect_slice(proc, timeout):
+    """-> (exit code, violation/known lines to pass on, summary dict, stderr tail)"""
+    try:
+        out, err = proc.communicate(timeout=timeout)
+    except subprocess.TimeoutExpired:
+        proc.kill()
+        return 2, [], None, "slice timed out"
+    lines = [l for l in out.splitlines() if l.startswith(("violation:", "VIOLATION ", "KNOWN-FINDING:"))]
+    summary = None
+    for l in out.splitlines():
+        if l.startswith("SLICE-SUMMARY "):
+            summary = json.loads(l[len("SLICE-SUMMARY "):])
+    return proc.returncode, lines, summary, err[-2000:]
 
 
 def start_cross_check(seed, spec, hashseed="12345", workers=3):
@@ -638,6 +708,12 @@ def check_main(tier, seed, args):
     det_spec = ("random:0:40,template:3:24:97,fork3:1:8:41,slowpairs:2:6:53" if tier == "quick"
                 else "random:0:120,template:3:60:37,fork3:1:16:23,slowpairs:2:12:31")
     det_proc = start_cross_check(seed, det_spec, hashseed="12345", workers=2 if tier == "quick" else 4)
+    # a slice of the systematic and random strata in an interpreter without assert statements (python -O)
+    opt_spec = ("template:%d:420:11,random:100000:80,fork3:%d:40:13" % (seed % 11, seed % 13) if tier == "quick"
+                else "template:0:%d:1,fork3:0:%d:1,random:100000:3000" % (gen.N_TEMPLATES, gen.N_FORK3))
+    opt_proc = None if os.environ.get("VERIF_SKIP_OPT_SLICE") == "1" else start_slice(
+        seed, opt_spec, workers=3 if tier == "quick" else 4)
+    opt_lines, opt_summary = [], None
     try:
         with make_pool(workers) as pool:
             if tier == "quick":
@@ -671,20 +747,34 @@ def check_main(tier, seed, args):
             harness.append("determinism cross-check could not run: %s" % e)
     if det_proc.poll() is None:
         det_proc.kill()
+    opt_code = 0
+    if opt_proc is not None:
+        opt_code, opt_lines, opt_summary, opt_err = collect_slice(opt_proc, 900 if tier == "quick" else 7200)
+        if opt_code not in (0, 1) or opt_summary is None:
+            harness.append("the python -O slice failed (exit %s): %s" % (opt_code, opt_err))
     wall = time.time() - t0
+    batch.opt_summary = opt_summary
+    opt_v = [l for l in opt_lines if l.startswith("VIOLATION ")]
     if not args.no_evidence:
-        write_evidence(tier, seed, batch, wall, workers, len(vlines), klines, det_info, sweep_info, harness, ops.classify_api())
-    for line in klines:
+        write_evidence(tier, seed, batch, wall, workers, len(vlines) + len(opt_v), klines, det_info, sweep_info, harness, ops.classify_api())
+    for line in klines + [l for l in opt_lines if l.startswith("KNOWN-FINDING:") and l not in klines]:
         print(line)
     print("C14 %s: %d runs (%s), %d steps, %d checked used-vs-fresh query pairs, %d distinct histories judged after a state change, %.1fs"
           % (tier, batch.runs, dict(batch.per_stratum), batch.steps, batch.stats["checked"], len(batch.nontrivial), wall))  # fmt: skip
-    if harness and not vlines:
+    if harness and not vlines and not opt_v:
         for hmsg in harness:
             sys.stderr.write("HARNESS-ERROR: %s\n" % hmsg)
         return 2
     for hmsg in harness:
         # confirmed violations below were each re-executed in a fresh interpreter and failed identically
         sys.stderr.write("NOTE (harness): %s\n" % hmsg)
+    if opt_v:
+        print("found in the slice that runs under python -O (no assert statements):")
+        for l in opt_lines:
+            if not l.startswith("KNOWN-FINDING:"):
+                print(l)
+        if not vlines:
+            return 1
     if vlines:
         for path, m in vlines:
             print("violation: class=%s signature=%s steps=%s" % (
@@ -838,6 +928,7 @@ def write_evidence(tier, seed, batch, wall, workers, n_viol, klines, det_info, s
             "checked_pairs_equal_within_tolerance_but_not_bitwise": s["inexact_equal_pairs"],
             "inexact_by_query_and_reference_mode": pick("inexact:"),
             "runs_by_stratum": dict(batch.per_stratum),
+            "slice_run_in_an_interpreter_without_assert_statements_python_O": getattr(batch, "opt_summary", None),
             "fault_point_templates": {"defined": s["inject_templates_defined"], "seam_called_by_the_query": s["inject_templates_with_a_live_seam"]},
             "worker_seconds_by_stratum": {k: round(v, 1) for k, v in pick("cpu_s:").items()},
             "runs_by_status": dict(batch.status),
@@ -855,6 +946,7 @@ def write_evidence(tier, seed, batch, wall, workers, n_viol, klines, det_info, s
             "faults_fired": faults,
             "simfs": dict(batch.fs),
             "queries_checked_by_kind": pick("q:"),
+            "answers_that_were_None_by_kind": pick("none:"),
             "distinct_abstract_transitions": len(batch.transitions),
             "abstract_transition_definition": "(source class, H/R/- setting, memo bitmask + cif_data flag, #handles) x operation",
             "runs_per_hour": round(batch.runs / max(wall, 1e-9) * 3600),
